@@ -11,7 +11,7 @@ OBLIGATIONS = [
        functions=[P + "convert.py:set_structure, get_structure, _set_intra_residue_bonds, _set_inter_residue_bonds, _filter_canonical_links, _parse_intra_residue_bonds, _parse_inter_residue_bonds, _find_matches, _get_box",
                   P + "cif.py / bcif.py / compress.py (file layer)", "src/biotite/structure/bonds.pyx:connect_via_residue_names (compiled)"],
        stubs=["synthetic Chemical Component Dictionary (7 components)"],
-       bounds="2 residues x 3 atoms; 6 (thorough 8) groups each varying 3-5 of: residue types (ALA, GLY, LIG with quote/prime atom names, SER), chain ids (A, B, AA, A'), residue ids (1, 2, -1, 10), insertion codes, optional b_factor/occupancy/charge/atom_id, bond type sets (8 intra-residue incl. aromatic, 5 inter-residue), link partner, box (none/orthorhombic/monoclinic), 1-2 models; CIF, BinaryCIF and compressed BinaryCIF; text and binary decode equal"),
+       bounds="2 residues x 3 atoms; 7 (thorough 9) groups each varying 3-5 of: residue types (ALA, GLY, LIG with quote/prime atom names, SER), chain ids (A, B, AA, A'), residue ids (1, 2, -1, 10, 128, -300), two residues of the same type that differ by insertion code only, insertion codes, optional b_factor/occupancy/charge/atom_id, bond type sets (8 intra-residue incl. aromatic, 5 inter-residue), link partner, box (none/orthorhombic/monoclinic), 1-2 models; CIF, BinaryCIF and compressed BinaryCIF; text and binary decode equal"),
     SX("sx_find_matches", "sx_c04", "ob_find_matches", cls="E", quick=200, parts=8,
        functions=["src/biotite/structure/io/pdbx/convert.py:_find_matches/_find_matches_by_dense_array/_find_matches_by_dict"],
        bounds="every table of 3 reference rows x 2 columns over {0,1} and 2 query rows (1024 tables), both implementations and both sides of FIND_MATCHES_SWITCH_THRESHOLD: index of the unique matching row (row 0 included), -1 without a match, InvalidFileError exactly when a query row matches more than one reference row"),
